@@ -42,8 +42,8 @@ from .. import leanio, pyextract
 from ..core import Ctx, ExtractError, load_corpus
 
 ID = "C10"
-LEVEL = "proof"            # the evidence schema's `level` is the technique category (enum without "partial")
-LEVEL_CLAIMED = "partial"  # DESIGN §8: the idle clause counted from the receipt of a change is proved only under a guard (C10-F2)
+LEVEL = "proof"
+STRENGTH = "partial"   # the idle clause counted from the receipt of a change is proved only under a guard (open finding C10-F2)
 ENGINES = ["lean-model", "pyextract", "kopfsim"]
 LEVEL_TEXT = (
     "PARTIAL by DESIGN §8's definition: the idle clause counted from the RECEIPT of a change is proved only under the guard "
